@@ -453,17 +453,62 @@ func runC15(c *Check) {
 			continue
 		}
 		n++
-		sl := backSlice(r.Results[0], SliceOpt{})
-		all := true
-		// every incoming definition is a Put result: no constant nil
-		if sl.Has(func(v ssa.Value) bool { k, ok := v.(*ssa.Const); return ok && k.IsNil() }) {
-			all = false
-		}
-		if !sl.Has(func(v ssa.Value) bool { g, ok := v.(*ssa.Call); return ok && isPut(g) }) {
-			all = false
-		}
-		if !all {
-			okAll = false
+	}
+	// from the failure edge of each Put no success return is reachable (the success side may return
+	// the Put's nil error or a literal nil)
+	succPut := blocksOfReturns(successReturns(storeEDS))
+	for _, b := range storeEDS.Blocks {
+		for _, ins := range b.Instrs {
+			g, ok := ins.(*ssa.Call)
+			if !ok || !isPut(g) {
+				continue
+			}
+			// success returns that simply hand back this Put's own error value are the Put's verdict
+			tg := map[*ssa.BasicBlock]bool{}
+			for _, r := range returnsOf(storeEDS) {
+				if !succPut[r.Block()] {
+					continue
+				}
+				if k, isK := r.Results[0].(*ssa.Const); isK && k.IsNil() {
+					tg[r.Block()] = true
+				}
+			}
+			_, failS := errEdgesOfCall(storeEDS, g)
+			if len(failS) == 0 {
+				// the error may be tested after a merge (err is a phi of both Puts)
+				for _, bb := range storeEDS.Blocks {
+					ifi, ok := bb.Instrs[len(bb.Instrs)-1].(*ssa.If)
+					if !ok {
+						continue
+					}
+					if x, eq, ok := nilTest(ifi.Cond); ok && isErrorType(x.Type()) && backSlice(x, SliceOpt{}).Vals[g] {
+						if eq {
+							failS = append(failS, bb.Succs[1])
+						} else {
+							failS = append(failS, bb.Succs[0])
+						}
+					}
+				}
+			}
+			if len(failS) == 0 {
+				// no test of the error: then every return reachable from the Put must return its error value itself
+				for _, r := range returnsOf(storeEDS) {
+					if !backSlice(r.Results[0], SliceOpt{}).Vals[g] && (b == r.Block() || gateWalk(p, storeEDS, map[*ssa.BasicBlock]bool{r.Block(): true}, nil, b).Reached) {
+						okAll = false
+					}
+				}
+				continue
+			}
+			for _, s := range failS {
+				if gateWalk(p, storeEDS, tg, nil, s).Reached {
+					okAll = false
+				}
+				for _, r := range returnsOf(storeEDS) {
+					if s.Dominates(r.Block()) && !backSlice(r.Results[0], SliceOpt{CallArgs: true}).Vals[g] {
+						okAll = false
+					}
+				}
+			}
 		}
 	}
 	c.Ob("R15.5", "storeEDS returns the Put error", okAll && n > 0, p.Pos(storeEDS.Pos()), "every return after a Put* returns that Put*'s error (a failed store is not reported as stored)")
